@@ -47,6 +47,10 @@ def check(ctx: Ctx) -> None:
     r11_utc_ages(ctx, "C19.R12")
     release_always_lets_go(ctx)
     polling_break_double_check(ctx)
+    # "fails with a timeout error within its configured timeout": a configured 0 ("try once") is a configuration, not an absence
+    from .common import numbers_not_truth_tested
+    numbers_not_truth_tested(ctx, "C19.R15", ("file_lock", "lock_provider", "storage_backend"), "timeouts, leases, ages")
+    durations_use_total_seconds(ctx, "C19.R16", ("file_lock", "lock_provider", "storage_backend"))
 
 
 def lock_dir_private(ctx: Ctx, rid: str = "C19.R9") -> None:
@@ -91,7 +95,7 @@ def lock_dir_private(ctx: Ctx, rid: str = "C19.R9") -> None:
                        f"`{x.value}`" + ("" if ok else ": code outside create_lock addresses the lock directory - whatever it lists, "
                                          "ages or deletes there is the live commit lock of some writer"),
                        text=f"{m.short}:{x.value}", file=m.relpath, line=x.lineno)
-    if n_ok == 0:
+    if n_ok == 0 and not any(o.rule == rid and not o.ok for o in ctx.obs):
         raise AnalysisError("create_lock argument not found as a constant")
 
 
@@ -562,7 +566,29 @@ def r3(ctx: Ctx, rid: str) -> None:
         im = ims[0] if ims else None
         eo = sl.origins(im, p.id)
         heads = [c for c in eo["calls"] if isinstance(c, ast.Call) and (dotted(c.func) or "").endswith("head_object")]
-        age_b = [b for b in g.nodes if b.kind == "branch" and isinstance(b.ast, ast.Compare) and "lease_seconds" in b.text]
+        def lease_kind(e: ast.AST) -> Optional[str]:
+            """'seconds' for self.lease_seconds itself; 'timedelta' / 'timedelta-wrong-unit' for a property of the provider that
+            returns timedelta(seconds=self.lease_seconds) / the lease under another unit (timedelta's first positional is DAYS)"""
+            t = norm_text(e)
+            if "lease_seconds" in t:
+                return "seconds"
+            if isinstance(e, ast.Attribute) and isinstance(e.value, ast.Name) and e.value.id == "self":
+                for c in [cls] + [ctx.prog.classes[b] for b in cls.base_names if b in ctx.prog.classes]:
+                    pm = c.methods.get(e.attr)
+                    if pm is not None and any((dotted(d) or "") == "property" for d in getattr(pm.node, "decorator_list", [])):
+                        rets = [x.value for x in ast.walk(pm.node) if isinstance(x, ast.Return) and x.value is not None]
+                        if len(rets) == 1 and isinstance(rets[0], ast.Call) and (dotted(rets[0].func) or "").split(".")[-1] == "timedelta" \
+                                and "lease_seconds" in norm_text(rets[0]):
+                            kws = {k.arg: norm_text(k.value) for k in rets[0].keywords}
+                            good = not rets[0].args and set(kws) == {"seconds"} and "lease_seconds" in kws["seconds"] and kws["seconds"].count("*") == 0 \
+                                and "/" not in kws["seconds"]
+                            return "timedelta" if good else "timedelta-wrong-unit"
+                        if len(rets) == 1 and "lease_seconds" in norm_text(rets[0]):
+                            return "seconds" if norm_text(rets[0]) == "self.lease_seconds" else None
+            return None
+
+        age_b = [b for b in g.nodes if b.kind == "branch" and isinstance(b.ast, ast.Compare) and len(b.ast.ops) == 1
+                 and any(lease_kind(x) for x in [b.ast.left] + list(b.ast.comparators))]
         ok_same = False
         ok_dom = False
         for b in age_b:
@@ -572,8 +598,15 @@ def r3(ctx: Ctx, rid: str) -> None:
                 ok_same = True
             cmp_ = b.ast
             assert isinstance(cmp_, ast.Compare)
-            le = isinstance(cmp_.ops[0], (ast.LtE, ast.Lt)) and "lease_seconds" in norm_text(cmp_.comparators[0])
-            gt = isinstance(cmp_.ops[0], (ast.Gt, ast.GtE)) and "lease_seconds" in norm_text(cmp_.comparators[0])
+            lk = lease_kind(cmp_.comparators[0])
+            # both sides of the age test are in one unit: seconds against seconds, timedelta against timedelta(seconds=lease)
+            age_secs = any(isinstance(c, ast.Call) and isinstance(c.func, ast.Attribute) and c.func.attr == "total_seconds" for c in ao["calls"])
+            unit_ok = (lk == "seconds" and age_secs) or (lk == "timedelta" and not age_secs)
+            ctx.ob(rid, tk, "lease age and lease are compared in one unit", b, unit_ok,
+                   f"`{b.text}`: age in {'seconds' if age_secs else 'timedelta'}, lease as {lk} - timedelta(<n>) counts DAYS, a number "
+                   "against a timedelta raises: an abandoned lock is then never (or always) taken over")
+            le = isinstance(cmp_.ops[0], (ast.LtE, ast.Lt)) and lk is not None
+            gt = isinstance(cmp_.ops[0], (ast.Gt, ast.GtE)) and lk is not None
             expired_edge = "false" if le else ("true" if gt else None)
             fresh_edge = "true" if le else ("false" if gt else None)
             if expired_edge is None:
@@ -776,13 +809,19 @@ def r5(ctx: Ctx, rid: str = "C19.R5") -> None:
     sl = ctx.slicer(sr)
     for d in ctx.calls(sr, prim="boto.delete_object"):
         ok = False
+        eq_edges = set()
         for b in [b for b in sg.nodes if b.kind == "branch" and isinstance(b.ast, ast.Compare) and "lock_id" in b.text]:
             eq = isinstance(b.ast.ops[0], ast.Eq)
             t, fl = edge_target(sg, b, "true" if eq else "false"), edge_target(sg, b, "false" if eq else "true")
             org = sl.origins(b.ast, b.id)
             rb = any(isinstance(c, ast.Call) and (dotted(c.func) or "").endswith("get_object") for c in org["calls"])
             if rb and t is not None and d.id in reachable_from(sg, t, NORMAL) and (fl is None or d.id not in reachable_from(sg, fl, NORMAL)):
-                ok = True
+                eq_edges.add((b.id, t))
+        if eq_edges:
+            # EVERY way to the DELETE passes a read-back-equal edge (an `owner is None or ...` side door - "could not read" taken
+            # for "already gone" - deletes a lock whose owner is unknown)
+            side = find_path(sg, sg.entry, [d.id], labels=NORMAL, edge_ok=lambda s_, d_, l_: (s_, d_) not in eq_edges)
+            ok = side is None
         if not ok:
             # the same test carried by a flag / a record field (`owner = Owner(content, content == self.lock_id)`; `if owner.is_us`)
             for pol, e, at in facts_at(ctx, sr, d):
@@ -791,3 +830,36 @@ def r5(ctx: Ctx, rid: str = "C19.R5") -> None:
                         and any(isinstance(c, ast.Call) and (dotted(c.func) or "").endswith("get_object") for c in sl.origins(e, at)["calls"]):
                     ok = True
         ctx.ob(rid, sr, "delete_object only under content == lock_id", d, ok, "never delete a lock someone else now owns")
+
+
+def durations_use_total_seconds(ctx: Ctx, rid: str, modules: Tuple[str, ...]) -> None:
+    ctx.rule(rid, "a duration is measured whole: `.seconds` / `.microseconds` of a timedelta are COMPONENTS (seconds wraps at one day "
+             "and is never negative: a lock stamped 2 s in the future reads as 86398 s old) - an age / lease / interval is "
+             "`.total_seconds()`, or all three components of the same value (.days, .seconds, .microseconds) combined", 1)
+    n = 0
+    for m in sorted(ctx.prog.modules.values(), key=lambda x: x.name):
+        if m.short not in modules:
+            continue
+        n += 1
+        bad = []
+        for fn in [x for x in ast.walk(m.tree) if isinstance(x, (ast.FunctionDef, ast.AsyncFunctionDef, ast.Lambda))]:
+            reads = {}
+            for x in ast.walk(fn):
+                if isinstance(x, ast.Attribute) and isinstance(x.ctx, ast.Load) and x.attr in ("seconds", "microseconds", "days"):
+                    reads.setdefault(norm_text(x.value), {})[x.attr] = x
+            for recv, comps in reads.items():
+                if ("seconds" in comps or "microseconds" in comps) and "days" not in comps:
+                    bad.append((comps.get("seconds") or comps.get("microseconds"), recv))
+        seen = set()
+        for x, recv in bad:
+            if (x.lineno, recv) in seen:
+                continue
+            seen.add((x.lineno, recv))
+            ctx.ob(rid, None, "no partial timedelta component is used as a duration", None, False,
+                   f"`{recv}.{x.attr}` without `.days`: the value wraps at 24 h and a negative difference reads as almost a day",
+                   text=f"{m.short}:{recv}.{x.attr}", file=m.relpath, line=x.lineno)
+        if not bad:
+            ctx.ob(rid, None, "no partial timedelta component is used as a duration", None, True, "none read", nontrivial=False,
+                   text=m.short, file=m.relpath, line=1)
+    if n == 0:
+        raise AnalysisError(f"durations_use_total_seconds: none of {modules} found")
